@@ -40,19 +40,20 @@ theorem decodeAll_succ (fuel : Nat) (s : Bytes) (term : Term) :
 /-- **async connection**: any segmentation = whole-stream decoding -/
 theorem C02_async (fuel : Nat) (buf : Bytes) (chunks : List Bytes) (term : Term)
     (hne : NonEmptyChunks chunks) :
-    sessionA fuel 0 buf chunks term = decodeAll fuel (buf ++ chunks.flatten) term := by
+    sessionA fuel 0 .initial buf chunks term = decodeAll fuel (buf ++ chunks.flatten) term := by
   induction fuel generalizing buf chunks with
   | zero => simp [sessionA, decodeAll]
   | succ fuel ih =>
     rw [decodeAll_succ, sessionA]
     obtain ⟨h1, h2⟩ := recvLoopA_eq .initial buf chunks term hne
+    have h0 := recvLoopA_resp_initial .initial buf chunks term
     unfold recvA
-    rcases hr : recvLoopA .initial buf chunks term with ⟨it, buf', cs'⟩
-    rw [hr] at h1 h2
-    simp only at h1 h2
+    rcases hr : recvLoopA .initial buf chunks term with ⟨it, buf', cs', σ'⟩
+    rw [hr] at h1 h2 h0
+    simp only at h1 h2 h0
     rw [← h1]
     cases it with
-    | resp r => simp only; rw [ih buf' cs' h2]
+    | resp r => simp only; rw [h0 r rfl, ih buf' cs' h2]
     | clean => rfl
     | invalid => rfl
     | unexpectedEof => rfl
@@ -63,19 +64,20 @@ theorem C02_async (fuel : Nat) (buf : Bytes) (chunks : List Bytes) (term : Term)
 any segmentation = whole-stream decoding -/
 theorem C02_sync (fuel : Nat) (b : SBuf) (chunks : List Bytes) (term : Term)
     (hne : NonEmptyChunks chunks) (hinv : SInv b) :
-    sessionS fuel 0 b chunks term = decodeAll fuel (b.data ++ chunks.flatten) term := by
+    sessionS fuel 0 .initial b chunks term = decodeAll fuel (b.data ++ chunks.flatten) term := by
   induction fuel generalizing b chunks with
   | zero => simp [sessionS, decodeAll]
   | succ fuel ih =>
     rw [decodeAll_succ, sessionS]
     obtain ⟨h1, h2, h3, _⟩ := recvLoopS_eq (scriptLen chunks + 1) .initial b chunks term hne hinv (Nat.lt_succ_self _)
+    have h0 := recvLoopS_resp_initial (scriptLen chunks + 1) .initial b chunks term
     unfold recvS
-    rcases hr : recvLoopS (scriptLen chunks + 1) .initial b chunks term with ⟨it, b', cs'⟩
-    rw [hr] at h1 h2 h3
-    simp only at h1 h2 h3
+    rcases hr : recvLoopS (scriptLen chunks + 1) .initial b chunks term with ⟨it, b', cs', σ'⟩
+    rw [hr] at h1 h2 h3 h0
+    simp only at h1 h2 h3 h0
     rw [← h1]
     cases it with
-    | resp r => simp only; rw [ih b' cs' h2 h3]
+    | resp r => simp only; rw [h0 r rfl, ih b' cs' h2 h3]
     | clean => rfl
     | invalid => rfl
     | unexpectedEof => rfl
@@ -88,9 +90,9 @@ theorem fresh_inv : SInv { cap := DEFAULT_CAP, data := [] } := by unfold SInv DE
 /-- **C02**: the results depend only on the bytes sent — not on the segmentation, not on the flavour -/
 theorem C02_segmentation_independent (fuel : Nat) (c1 c2 : List Bytes) (term : Term)
     (h1 : NonEmptyChunks c1) (h2 : NonEmptyChunks c2) (hflat : c1.flatten = c2.flatten) :
-    sessionA fuel 0 [] c1 term = sessionA fuel 0 [] c2 term ∧
-    sessionS fuel 0 { cap := DEFAULT_CAP, data := [] } c1 term = sessionS fuel 0 { cap := DEFAULT_CAP, data := [] } c2 term ∧
-    sessionA fuel 0 [] c1 term = sessionS fuel 0 { cap := DEFAULT_CAP, data := [] } c2 term := by
+    sessionA fuel 0 .initial [] c1 term = sessionA fuel 0 .initial [] c2 term ∧
+    sessionS fuel 0 .initial { cap := DEFAULT_CAP, data := [] } c1 term = sessionS fuel 0 .initial { cap := DEFAULT_CAP, data := [] } c2 term ∧
+    sessionA fuel 0 .initial [] c1 term = sessionS fuel 0 .initial { cap := DEFAULT_CAP, data := [] } c2 term := by
   rw [C02_async fuel [] c1 term h1, C02_async fuel [] c2 term h2,
     C02_sync fuel _ c1 term h1 fresh_inv, C02_sync fuel _ c2 term h2 fresh_inv, hflat]
   simp
@@ -147,7 +149,7 @@ theorem decodeAll_ends (fuel : Nat) (s : Bytes) (term : Term) (h : s.length < fu
 
 /-! ## non-vacuity: a response split inside a key, inside the binary header and inside the payload -/
 example :
-    sessionA 40 0 [] [str "fo", str "o: bar\nbin", str "ary: 3\nA", str "\nB\nOK\nx"] .eof =
+    sessionA 40 0 .initial [] [str "fo", str "o: bar\nbin", str "ary: 3\nA", str "\nB\nOK\nx"] .eof =
     decodeAll 40 (str "foo: bar\nbinary: 3\nA\nB\nOK\nx") .eof := by
   apply C02_async
   intro c hc
